@@ -73,7 +73,9 @@ def kde_native(vc):
     h = kde.h
     lo, hi = s.min(), s.max()
     near = rng.choice(s, size=12) + rng.uniform(-3, 3, size=12) * h      # points close to samples (matter when h << range)
-    xs = np.concatenate([np.linspace(lo - 6 * h, hi + 6 * h, 61), rng.choice(s, size=5), near, [lo - 40 * h, hi + 40 * h]])
+    # (also points astronomically far from the sample: 1e25 bandwidths -- region look-ups by index arithmetic overflow there)
+    xs = np.concatenate([np.linspace(lo - 6 * h, hi + 6 * h, 61), rng.choice(s, size=5), near, [lo - 40 * h, hi + 40 * h],
+                         [lo - 1e25 * h, hi + 1e25 * h]])
     p = np.asarray(kde(xs))
     c = np.asarray(kde.cdf(xs))
     pe, ce = brute_kde(s, h, xs), brute_cdf(s, h, xs)
